@@ -10,7 +10,7 @@ CHECKS = {
     "C02": dict(tech="TLC-generated deviation programs (offsets of +-1 and confusion deviations: the constraint would hold if a wire were its neighbour) replayed on the real code (must be rejected); position sweeps (every row of a large statement, every gate of a two-phase circuit); TLC trace validation (IdealSoundness) on toy31723 of bad-witness programs and of random programs with free constraints over small values, with re-run of lucky accepts",
                 text="Every single violated constraint or gate of every bounded program is pushed through the unmodified proving code (guarded gate-overwrite hook) and must be rejected on all curves; the model's DeviationIffUnsatisfied invariant ties the expectation to the statement semantics.",
                 note="bounded call depth; one or two deviations per program; Schwartz-Zippel luck on the toy curve handled by re-running with fresh randomness", ref="5 C02"),
-    "C03": dict(tech="TLC trace validation on toy curves: the verifier's verdict is recomputed from the recorded statement, proof and challenges (combined check, unbatched relations with explicit folding), including proofs crafted with the combiner the verifier derived for the unaltered proof (combiner attack)",
+    "C03": dict(tech="TLC trace validation on toy curves: the verifier's verdict is recomputed from the recorded statement, proof and challenges (combined check, unbatched relations with explicit folding), including proofs crafted with the combiner the verifier derived for the unaltered proof (combiner attack) and circuits whose randomized closures create no gate; the code must have derived every challenge the specification's verifier derives",
                 text="For every verify call recorded on toy7/toy79/toy31723 (honest, bad-witness and tampered proofs) TLC recomputes the specification's verdict, the residuals Tres and Ires of the unbatched relations and the combined residual, and demands verdict equality, mega = Ires + r*Tres and verdict = relations up to the single colliding r; small groups make a mis-weighted or dropped term visible.",
                 note="toy curves only (exact recomputation needs P^2 < 2^31); the library code is curve-generic, so the same monomorphised logic runs on the real curves; challenge scalars taken as derived by the code (hook H3)", ref="5 C03"),
     "C05": dict(tech="replay of every single verifier-side statement/context deviation on the real code (seven base statements, a 300/600-row statement with every row deviating in turn, a statement with 300/600 commitments) + TLC trace validation on toy31723 (StatementBinding invariant over the recorded calls of both roles, exact verdict of the deviating statement)",
